@@ -23,4 +23,8 @@ def layout_family(tier='quick'):
     out.append(T('l:inline_comments', 'root packet Root {\n    repeat Sub { // open\n        // inner lead\n        u8 x, // inner trail\n        Deep {\n            u8 y, // deep\n        },\n    }, // close\n}\n'))
     out.append(T('l:percent', 'root packet Root {\n    u8 load, // 100% of capacity, rate in %d units %s\n    string s `50%% doc %v`,\n}\n'))
     out.append(T('l:comment_above_attrs', "root packet Root {\n    u16 MsgType,\n    // user name, zero padded\n    @tag(553)\n    @leftPad('0')\n    char[10] UserName `user`,\n    // above first of three\n    @tag(1)\n    // above second\n    @rightPad(' ')\n    // above the field\n    char[4] c,\n    // above length attribute\n    @tag(9)\n    @lengthOf(Body)\n    u32 BodyLength,\n    Other Body,\n    // above checksum attribute\n    @tag(10)\n    @calculatedFrom(\"CRC32\")\n    u32 Check,\n}\n\npacket Other {\n    u8 v,\n}\n"))
+    out.append(T('l:percent_everywhere', 'options {\n    GoPackage = "m%d"; // 100%\n}\n\nMetaData M {\n    u16 Px `50% of %s`, // %v\n    Px Alias `%d%%`,\n}\n\nroot packet Root {\n    u16 Len @lengthOf(Body) `100% of Body, max 50%d`,\n    @tag(1)\n    u8 k `key %x`,\n    match k as Body { // %s\n        1 : Other, // %d\n    },\n    Inner { // %q\n        char[4] c `%c`,\n    },\n    Other o `obj %v`,\n    repeat Other os `list %T`,\n    @calculatedFrom("CRC32")\n    u32 cs `sum %08x`,\n} // end %\n\npacket Other {\n    u8 v `%%`,\n}\n'))
+    out.append(T('l:percent_docs', 'MetaData M {\n    u16 Px `50% of %s`,\n    Px Alias `%d%%`,\n}\n\nroot packet Root {\n    u16 Len @lengthOf(Body) `100% of Body, max 50%d`,\n    @tag(1)\n    u8 k `key %x`,\n    Other Body `obj %v`,\n    Inner {\n        char[4] c `%c`,\n    },\n    repeat Other os `list %T`,\n    @lengthOf(os)\n    u32 Len2 `%5.2f`,\n    u32 cs @calculatedFrom("CRC32") `sum %08x`,\n}\n\npacket Other {\n    u8 v `%%`,\n}\n'))
+    out.append(T('l:options_nosemi_comment', 'options {\n    LittleEndian = true // le\n    GoPackage = "m" // last, no semicolon\n}\n\nroot packet Root {\n    u8 a, // comment\n}\n'))
+    out.append(T('l:oneline_constructs', 'options { LittleEndian = true; GoPackage = "m"; } // after options\nroot packet Root { u8 a, repeat Pair { u8 k, u8 v, }, // after inline\n    match a as b { 1 : Other, }, // after match\n} // after packet\npacket Other { } // keep alive\n'))
     return out
